@@ -10,9 +10,16 @@ Sub-claims (DESIGN §4 C19):
   d  power additive over adjacent bands when the split point IS a grid frequency; super-additive for any other split point
      (the panel straddling the split is lost from both parts) — plain additivity is false off-grid and is never demanded here.
   e  Parseval (statistical, not decided by theorem): full-band RMS of a computed ASD vs the time-domain RMS.
+
+Every oracle run also sweeps (i) SIZES — detrend / df_detrend / integral_rms at 70 001 and 1 100 003 points and around every integer constant mined
+from the current speckit/dsp.py, with ASD arrays containing exact zeros / zero runs / tiny / huge values and unsorted or duplicate grids — and
+(ii) analysis OPTIONS — get_rms on results of every (backend, order) pair, entry point, scheduler (incl. two user callables), overlap form, window,
+layout, auto and cross, single-bin results, second calls (functions detrend_long, rms_sized, option_sweep).
 """
 from __future__ import annotations
 
+import contextlib
+import ctypes
 import logging
 import math
 import warnings
@@ -61,13 +68,36 @@ ASSUMPTIONS = ["theorems are over the reals; floating-point rounding is covered 
                "duplicates) translated code = hand model is proved (gen_integral_rms_eq_model) and the real code is tied to both by the differential runs",
                "'full-band RMS reproduces the time-domain RMS within a few percent' is statistical and grid dependent: support run only "
                "(threshold 15 % white / 35 % low-pass coloured, measured worst case on the unchanged tree 3.1 % / 10.3 % over 360 records)",
-               "additivity of power is demanded only for split points that are grid frequencies; elsewhere only super-additivity (DESIGN C19-d)"]
+               "additivity of power is demanded only for split points that are grid frequencies; elsewhere only super-additivity (DESIGN C19-d)",
+               "UNSORTED grids (oracle check 'uspec'): 'the trapezoidal integral over the grid points inside the band' is taken in the STORED order of the "
+               "points (signed panels; Model.integralRms, equal to the translated code for every grid: gen_integral_rms_eq_model); a negative signed sum "
+               "gives NaN, a sum within the rounding budget of 0 is counted as unstable; monotonicity / additivity are not demanded there",
+               "cross-spectral results have asd = None and get_rms raises NotImplementedError before reading it (gen_get_rms_csd); the oracle reports a "
+               "NUMBER returned for a cross result (there is no ASD whose integral it could be) and only records any other exception type; get_rms "
+               "rejects non-finite band edges with ValueError (gen_get_rms_nonfinite): recorded, not judged",
+               "option sweep: 'full-band RMS agrees between the NumPy and the Numba backend under identical options' is not part of the C19 text; it is "
+               "the consequence of C01/C05 (all kernels compute the same estimator) that makes the statistical Parseval claim sharp per (backend, order): "
+               "budget = sum over bins of trapezoid weight x (G/XX) x the C01/C05 forward bound of XX (_an.bin_tol with a <= max|x| sqrt(S12)); "
+               "'second call on the same analyzer / input array gives bit-identical f, asd and RMS and leaves the input untouched' is demanded because "
+               "both calls run the same code path on the same data (measured: bit-identical on the unchanged library for every backend / order / scheduler)",
+               "Parseval per (backend, order): records = noise + offset / line / parabola that the detrending order removes exactly from every segment; the "
+               "reference is the time-domain std of the noise part; configurations restricted to those on which the thresholds were measured (PARS_CFGS)",
+               "performance only: the sweep streams run with the loaded OpenBLAS limited to one thread (restored afterwards); no predicate depends on it"]
 RULE = ("detrend: (series kind incl. offset/trend/walk/int/const/zero, length 1..2000 (a few to 20000), order 0..5, list/array input); "
         "df_detrend: (frame with float/int/str/datetime columns and a shuffled index, column selection, order, inplace, suffix); "
         "rms: (grid kind lin/log/random/duplicates, size 1..2000, asd shape, band mode none/inside/partly/fully outside/on-grid/between/"
         "one-point/degenerate/infinite; nested pairs; on-grid and off-grid split points); get_rms: real computed results x bands incl. swapped; "
         "distinct by (sub-claim, size, kind, order/band mode); non-trivial = length > order+1 with a non-zero residual (detrend), "
-        ">= 2 grid points inside the band with positive power (rms)")
+        ">= 2 grid points inside the band with positive power (rms); "
+        "SIZE sweep (every run): detrend / df_detrend at 70 001 and 1 100 003 samples and at c-1, c, c+1, c+17, 2c+3 around every integer constant "
+        "mined from the CURRENT speckit/dsp.py (C.mined_sizes) for orders 0..5; integral_rms on generated grids of 70 001 and 1 100 003 points "
+        "(sorted kinds, duplicates, and an unsorted one) and around the mined constants, ASD kinds with exact zeros / zero runs / ideal band-pass / "
+        "tiny (1e-120) / huge (1e+140) / mixed values, bands with edges on zero-valued grid points, at block boundaries and in the last points; "
+        "OPTION sweep (every run): get_rms on results of every (backend in {numpy, numba|auto}) x (order -1, 0, 1, 2) pair, entry points "
+        "SpectrumAnalyzer.compute / compute_spectrum / lpsd / compute_single_bin (method and module level, L= and fres=), schedulers lpsd, ltf, "
+        "vectorized_ltf, new_ltf, a fixed-length Welch callable and a callable repeating segment lengths (b, 4b, b, b-1, 4b, b+1 ..), overlap "
+        "requested as 'default' / float / 0.0 / 0.9995, windows Kaiser(psll) / hann / callable / constructor default, array and list input, auto "
+        "and cross (2xN, Nx2, list) results, second call on the same analyzer and the same input array")
 
 U = 2.0 ** -53
 DETREND_REL = 1e-9          # per-sample error of polyfit+polyval relative to rms(x): theory <~ 2e-11 (see final note), measured <= 1.1e-12
@@ -109,6 +139,8 @@ def add_violation(P: C.Part, what: str, signature: Dict[str, Any], replay: Dict[
 # =====================================================================================================================
 GRID_KINDS = ["lin", "lin0", "log", "rand", "randlog", "dup", "sym"]
 ASD_KINDS = ["white", "powerlaw", "lognormal", "zeros", "spikes"]
+ASD_ZERO_KINDS = ["zero_runs", "bandpass", "isolated_zeros", "mixed", "zeros"]         # arrays containing EXACT zeros
+ASD_KINDS_X = ASD_KINDS + ["zero_runs", "bandpass", "isolated_zeros", "tiny", "huge", "mixed"]   # oracle streams (the correspondence keeps ASD_KINDS)
 BAND_MODES = ["none", "inside", "left_out", "right_out", "cover", "outside_left", "outside_right", "grid_grid", "grid_in", "in_grid",
               "between", "one_point", "degenerate", "degenerate_grid", "inf_left", "inf_right"]
 
@@ -147,9 +179,37 @@ def gen_asd(rng: np.random.Generator, f: np.ndarray, kind: str) -> np.ndarray:
         y = 10 ** rng.uniform(-3, 3, n)
     elif kind == "zeros":
         y = 10 ** rng.uniform(-2, 2, n) * (rng.random(n) < 0.6)
-    else:
+    elif kind == "zero_runs":                        # runs of EXACT zeros (also at the first / last grid points) between positive stretches
+        y = 10 ** rng.uniform(-2, 2, n)
+        nruns = int(rng.integers(1, 6))
+        for _ in range(nruns):
+            a = int(rng.integers(0, n))
+            y[a:a + int(rng.integers(1, max(2, n // 3)))] = 0.0
+        if rng.random() < 0.5:
+            y[:int(rng.integers(1, max(2, n // 10 + 1)))] = 0.0
+        if rng.random() < 0.5:
+            y[n - int(rng.integers(1, max(2, n // 10 + 1))):] = 0.0
+    elif kind == "bandpass":                         # ideal multi-band model spectrum: constant in two index ranges, exactly 0 elsewhere
+        y = np.zeros(n)
+        for lvl in (3.0, 1.5):
+            a = int(rng.integers(0, n))
+            y[a:a + int(rng.integers(1, max(2, n // 4)))] = lvl * 10 ** rng.uniform(-2, 2)
+    elif kind == "isolated_zeros":                   # positive everywhere except single notched bins
+        y = 10 ** rng.uniform(-1, 1, n)
+        y[rng.integers(0, n, size=max(1, n // 15))] = 0.0
+    elif kind == "tiny":                             # asd^2 ~ 1e-240 .. 1e-200: far below 1 but normal numbers (no denormals)
+        y = 10 ** rng.uniform(-120, -100, n)
+    elif kind == "huge":                             # asd^2 ~ 1e+200 .. 1e+280; spans here are <= 1e8, so power < 1e+290: no overflow
+        y = 10 ** rng.uniform(100, 140, n)
+    elif kind == "mixed":                            # 260 decades of dynamic range in one array, with exact zeros
+        y = 10 ** rng.uniform(-120, -100, n)
+        y[rng.integers(0, n, size=max(1, n // 7))] = 10 ** rng.uniform(100, 130)
+        y[rng.integers(0, n, size=max(1, n // 9))] = 0.0
+    elif kind == "spikes":
         y = np.full(n, 1e-3)
         y[rng.integers(0, n, size=max(1, n // 20))] = 1e3
+    else:
+        raise ValueError(kind)
     return y.astype(np.float64)
 
 
@@ -234,6 +294,10 @@ def ref_power(f: np.ndarray, y: np.ndarray, band: Optional[Tuple[float, float]])
     if len(fc) < 2:
         return 0.0, int(len(fc))
     panels = (fc[1:] - fc[:-1]) * (yc[1:] * yc[1:] + yc[:-1] * yc[:-1]) / 2.0
+    if len(panels) > 100000:
+        # long grids: NumPy's pairwise sum of NON-NEGATIVE terms in extended precision (error <= ~40 u relative even where long double is a
+        # plain double) instead of the exactly rounded fsum over a Python list; the predicate's allowance is 8 (n + 10) u >= 8e5 u there
+        return float(np.sum(panels, dtype=np.longdouble)), int(len(fc))
     return math.fsum(panels.tolist()), int(len(fc))
 
 
@@ -253,12 +317,17 @@ def impl_rms(f: Any, y: Any, band: Any) -> float:
         return integral_rms(f, y, band)
 
 
-def rms_eval(P: C.Part, f: np.ndarray, y: np.ndarray, check: str, args: List[Any], variant: int = 0, tag: str = "") -> None:
+def rms_eval(P: C.Part, f: np.ndarray, y: np.ndarray, check: str, args: List[Any], variant: int = 0, tag: str = "",
+             origin: Optional[Dict[str, Any]] = None, fn: Any = None) -> None:
     """evaluate ONE claim on the real integral_rms. check/args:
          spec     [band]                 rms^2 = trapezoid sum over the grid points inside the band; 0 with < 2 points
          mono     [inner, outer]         inner within outer  =>  rms(inner) <= rms(outer)
          split    [a, m, b]              additive when m is a grid frequency, super-additive otherwise
-       variant selects the container types handed to the function (glue): 0 arrays, 1 lists + list band, 2 arrays + np band"""
+         uspec    [band]                 UNSORTED grid: rms^2 = the signed trapezoid sum over the grid points inside the band IN THEIR STORED ORDER
+                                         (Model.integralRms; gen_integral_rms_eq_model is proved for every grid); NaN when that sum is negative
+       variant selects the container types handed to the function (glue): 0 arrays, 1 lists + list band, 2 arrays + np band.
+       origin: a generator spec ({"kind": "rmsgen" | "ocase", ...}) stored in the replay INSTEAD of the arrays (grids of 1e6 points; results
+       of an analysis); fn: a callable band -> rms used instead of integral_rms (SpectrumResult.get_rms of a result whose f / asd are f, y)."""
     n = len(f)
     rel = rel_tol(n)
     fin, yin = (f.tolist(), y.tolist()) if variant == 1 else (f, y)
@@ -269,14 +338,51 @@ def rms_eval(P: C.Part, f: np.ndarray, y: np.ndarray, check: str, args: List[Any
         return [b[0], b[1]] if variant == 1 else (np.array([b[0], b[1]]) if variant == 2 else (b[0], b[1]))
 
     def call(b) -> float:
+        if fn is not None:
+            return float(fn(b))
         return float(impl_rms(fin, yin, conv(b)))
 
-    rp = {"kind": "rms", "f": f.tolist(), "y": y.tolist(), "check": check, "args": args, "variant": variant}
-    if check not in ("spec", "mono", "split"):
+    if origin is not None:
+        rp = dict(origin, check=check, args=args, variant=variant)
+    else:
+        rp = {"kind": "rms", "f": f.tolist(), "y": y.tolist(), "check": check, "args": args, "variant": variant}
+    if check not in ("spec", "mono", "split", "uspec"):
         raise ValueError(check)
     P.cases += 1
     P.hit(f"rms-{check}")
+    who = "integral_rms" if fn is None else "get_rms"
     try:
+        if check == "uspec":
+            band = _band_in(args[0])
+            msk = inside_mask(f, band)
+            fc, yc = f[msk], y[msk]
+            npts = int(len(fc))
+            if npts >= 2:
+                panels = ((fc[1:] - fc[:-1]) * (yc[1:] * yc[1:] + yc[:-1] * yc[:-1]) / 2.0).tolist()
+                ref, area = math.fsum(panels), math.fsum(abs(q) for q in panels)
+            else:
+                ref = area = 0.0
+            v = call(band)
+            P.hit(f"uband-{tag}" if tag else "uband-?")
+            tol = rel * area + GUARD                   # signed panels cancel: the rounding budget is relative to the sum of |panels|
+            if npts < 2:
+                if v != 0.0:
+                    add_violation(P, f"{who} = {v!r} for band {band} containing {npts} point(s) of an unsorted grid; must be 0", {"sub": "rms-unsorted", "what": "lt2-points"}, rp)
+                return
+            if abs(ref) <= tol:
+                P.unstable += 1                        # the sign of the signed area is not decided within rounding
+                return
+            if ref < 0:
+                P.hit("uspec-negative-signed-area")
+                if not math.isnan(v):
+                    add_violation(P, f"{who} = {v!r} for band {band} on an unsorted grid whose signed trapezoid sum (stored order, {npts} points inside) is "
+                                     f"{ref!r} < 0: the square root of the trapezoidal integral is NaN; n={n}", {"sub": "rms-unsorted", "what": "negative-area"}, rp)
+                return
+            P.nontrivial.add(("rms-uspec", n, tag, npts))
+            if not (math.isfinite(v) and v >= 0.0) or not within("rms-uspec", abs(v * v - ref), tol):
+                add_violation(P, f"{who}^2 = {v * v!r} but the trapezoid sum of asd^2 over the {npts} points inside band {band} (stored order of the "
+                                 f"unsorted grid) is {ref!r} (sum of |panels| {area!r}, tol {tol:.3g}); n={n}", {"sub": "rms-unsorted", "what": "value"}, rp)
+            return
         if check == "spec":
             band = _band_in(args[0])
             v = call(band)
@@ -324,14 +430,15 @@ def rms_eval(P: C.Part, f: np.ndarray, y: np.ndarray, check: str, args: List[Any
         add_violation(P, f"integral_rms raised {ex!r} in check {check} args {args}; n={n}", {"sub": "rms-" + check, "what": "raises"}, dict(rp, error=repr(ex)))
 
 
-def rms_grid_checks(P: C.Part, rng: np.random.Generator, f: np.ndarray, y: np.ndarray, gkind: str, nbands: int) -> None:
+def rms_grid_checks(P: C.Part, rng: np.random.Generator, f: np.ndarray, y: np.ndarray, gkind: str, nbands: int,
+                    origin: Optional[Dict[str, Any]] = None) -> None:
     n = len(f)
     modes = ["none", "cover", "grid_grid", "one_point", "between"] + [str(m) for m in rng.choice(BAND_MODES, size=nbands)]
     for mode in modes:
-        rms_eval(P, f, y, "spec", [gen_band(rng, f, mode)], variant=int(rng.choice([0, 0, 0, 1, 2])), tag=mode)
+        rms_eval(P, f, y, "spec", [gen_band(rng, f, mode)], variant=int(rng.choice([0, 0, 0, 1, 2])), tag=mode, origin=origin)
     # full span: None, the explicit (fmin, fmax) and (-inf, inf) all mean the whole grid
-    rms_eval(P, f, y, "spec", [(float(f[0]), float(f[-1]))], tag="fmin_fmax")
-    rms_eval(P, f, y, "spec", [(-math.inf, math.inf)], tag="inf_inf")
+    rms_eval(P, f, y, "spec", [(float(f[0]), float(f[-1]))], tag="fmin_fmax", origin=origin)
+    rms_eval(P, f, y, "spec", [(-math.inf, math.inf)], tag="inf_inf", origin=origin)
 
     def point(on_grid: bool) -> float:
         return float(f[int(rng.integers(0, n))]) if on_grid else pick(rng, f)
@@ -341,8 +448,8 @@ def rms_grid_checks(P: C.Part, rng: np.random.Generator, f: np.ndarray, y: np.nd
             q[0] = q[0] - abs(q[3] - q[0]) - 1.0
         if rng.random() < 0.2:
             q[3] = q[3] + abs(q[3] - q[0]) + 1.0
-        rms_eval(P, f, y, "mono", [(q[1], q[2]), (q[0], q[3])], tag=gkind)
-        rms_eval(P, f, y, "mono", [(q[0], q[2]), (q[0], q[3])], tag=gkind)
+        rms_eval(P, f, y, "mono", [(q[1], q[2]), (q[0], q[3])], tag=gkind, origin=origin)
+        rms_eval(P, f, y, "mono", [(q[0], q[2]), (q[0], q[3])], tag=gkind, origin=origin)
     for k in range(max(4, nbands)):
         on = (k % 2 == 0)
         if on:
@@ -360,7 +467,42 @@ def rms_grid_checks(P: C.Part, rng: np.random.Generator, f: np.ndarray, y: np.nd
             cb += [float(hi[int(rng.integers(0, len(hi)))])] * 2
         a = min(m, ca[int(rng.integers(0, len(ca)))])
         b = max(m, cb[int(rng.integers(0, len(cb)))])
-        rms_eval(P, f, y, "split", [a, m, b], tag=gkind)
+        rms_eval(P, f, y, "split", [a, m, b], tag=gkind, origin=origin)
+    zero_checks(P, rng, f, y, gkind, origin)
+
+
+def zero_checks(P: C.Part, rng: np.random.Generator, f: np.ndarray, y: np.ndarray, gkind: str, origin: Optional[Dict[str, Any]] = None) -> None:
+    """ASD arrays with EXACT zeros (sorted grid): bands whose edges are grid points with asd == 0, bands ending on the first / last point of a
+    zero run, a band inside a zero run (power exactly 0 over >= 2 points), nesting around a zero run and splits AT zero-valued grid points. The
+    trapezoid runs over ALL grid points inside the band, whatever their value (a change that drops or bridges zero bins shows here)."""
+    n = len(f)
+    z = np.flatnonzero(y == 0.0)
+    if n < 3 or len(z) == 0:
+        return
+    P.hit("rms-zero-valued-bins")
+    nz = np.flatnonzero(y != 0.0)
+
+    def zi() -> int:
+        return int(z[int(rng.integers(0, len(z)))])
+    for _ in range(3):
+        i, j = sorted((zi(), zi()))
+        rms_eval(P, f, y, "spec", [(float(f[i]), float(f[j]))], tag="zero_zero", origin=origin)           # both edges on zero bins
+        k = int(rng.integers(0, n))
+        a, b = sorted((float(f[zi()]), float(f[k])))
+        rms_eval(P, f, y, "spec", [(a, b)], tag="zero_grid", origin=origin)                                # one edge on a zero bin
+    if len(nz):
+        k = int(nz[int(rng.integers(0, len(nz)))])                                                         # a positive bin and its zero neighbourhood
+        lo, hi = max(0, k - int(rng.integers(1, 4))), min(n - 1, k + int(rng.integers(1, 4)))
+        rms_eval(P, f, y, "spec", [(float(f[lo]), float(f[hi]))], tag="around_positive", origin=origin)
+        rms_eval(P, f, y, "mono", [(float(f[k]), float(f[k])), (float(f[lo]), float(f[hi]))], tag=gkind, origin=origin)
+    for _ in range(2):                                                                                      # split AT a zero-valued grid point
+        m = zi()
+        a = int(rng.integers(0, m + 1))
+        b = int(rng.integers(m, n))
+        rms_eval(P, f, y, "split", [float(f[a]), float(f[m]), float(f[b])], tag="zero-split", origin=origin)
+        rms_eval(P, f, y, "split", [float(f[0]) - 1.0, float(f[m]), float(f[-1]) + 1.0], tag="zero-split", origin=origin)
+    i, j = sorted((zi(), zi()))                                                                             # nesting with zero-valued edges
+    rms_eval(P, f, y, "mono", [(float(f[i]), float(f[j])), (float(f[max(0, i - 1)]), float(f[min(n - 1, j + 1)]))], tag=gkind, origin=origin)
 
 
 # =====================================================================================================================
@@ -408,17 +550,29 @@ def impl_detrend(x: Any, p: int) -> np.ndarray:
         return polynomial_detrend(x, p)
 
 
-def detrend_eval(P: C.Part, x: np.ndarray, p: int, origin: Dict[str, Any], as_list: bool = False) -> None:
-    """all detrend claims for one (series, order) on the real polynomial_detrend.
+def detrend_eval(P: C.Part, x: np.ndarray, p: int, origin: Dict[str, Any], as_list: bool = False, light: bool = False) -> None:
+    """all detrend claims for one (series, order) on the real polynomial_detrend (light=True: only shape, orthogonality, order-0 and
+    short-series claims — one call of the function; used for the remaining orders at the longest records of the quick tier).
     Tolerance: per-sample error of polyfit (column-scaled SVD least squares) + Horner polyval on t = 0..n-1 is bounded by
     ~ eps * (2p * sum|c_k| t^k + cond) ; for degree <= 5 the monomial coefficients of a polynomial of grid-rms 1 sum to <= ~7.5e3
-    (smallest eigenvalue of the 6x6 Hilbert matrix 1.1e-7), so the error is <~ 2e-11 * rms(x); measured worst 1.1e-12. DETREND_REL = 1e-9."""
+    (smallest eigenvalue of the 6x6 Hilbert matrix 1.1e-7), so the error is <~ 2e-11 * rms(x); measured worst 1.1e-12. DETREND_REL = 1e-9.
+    LONG records (size sweep, n = 70 001 .. 2.2e6): the bound does not grow with n. np.polyfit scales the Vandermonde columns of t = 0..n-1 to unit
+    norm before the SVD least-squares solve; the condition number of that scaled matrix is (measured at n = 65 535, 70 001 and 1 100 003, identical
+    to 3 digits, i.e. the n -> infinity limit) 3.73, 16.9, 86.1, 459, 2.5e3 for degrees 1..5, and its rcond = n*eps (2.4e-10 at n = 1.1e6) is far
+    below 1/2.5e3, so no singular value is truncated for any n < 1e12. A backward-stable solve then gives fitted values within
+    c*u*kappa*sqrt(2)*||x||_2 (kappa <= 2.5e3) in the 2-norm, i.e. per sample (a degree-5 polynomial's maximum is <= 6x its grid rms)
+    <= 6*sqrt(2)*2.5e3*c*u*rms(x) = 2.4e-12*c*rms(x) with c a modest LAPACK constant; Horner on t <= 2.2e6 adds 2*5*u*sum|c_k|t^k <= 10 u * 3363 *
+    max|trend| <= 2.2e-11 rms(x) (coefficient growth of a degree-5 polynomial on [0, n-1]: |T5*(-1)| = 3363, independent of n). Measured on the
+    unchanged library at n = 70 001 and 1 100 003, orders 0..5, seven series kinds: per-sample error vs an extended-precision Legendre
+    projection <= 3.3e-13 rms(x), orthogonality <= 3.1e-14 of n*rms(x), idempotence <= 1.1e-13 rms(x): DETREND_REL keeps a margin >= 3000.
+    The orthogonality sums are evaluated on the abscissa scaled to [-1, 1] (|t^k| <= 1; pairwise summation error <= 25 u * n * rms, 1e5 below
+    the allowance); raw monomials 0..n-1 would need 1e30-sized weights."""
     n = len(x)
     xf = np.asarray(x, dtype=np.float64)
     rmsx = float(np.sqrt(np.mean(xf * xf)))
     amax = float(np.max(np.abs(xf)))
     t = tscaled(n)
-    rp = {"kind": "detrend", "order": p, "as_list": as_list, **origin}
+    rp = {"kind": "detrend", "order": p, "as_list": as_list, "light": light, **origin}
     P.cases += 1
     P.hit(f"detrend-order-{p}")
     P.hit("detrend-short" if n < p + 1 else "detrend-regular")
@@ -443,18 +597,19 @@ def detrend_eval(P: C.Part, x: np.ndarray, p: int, origin: Dict[str, Any], as_li
         # x - r outside that space must vanish. Orthonormal Legendre basis on the scaled grid (well conditioned); x - r = trend up to the
         # rounding of the subtraction (<= 4u max|x|) and of polyval (covered by DETREND_REL * rms(x)).
         pe = min(p, n - 1)
-        Q, _ = np.linalg.qr(np.polynomial.legendre.legvander(t, pe))
-        tr = xf - r
-        out = float(np.max(np.abs(tr - Q @ (Q.T @ tr))))
-        if not within("detrend-removed-is-polynomial", out, DETREND_REL * rmsx + 1e-12 * amax):
-            add_violation(P, f"the removed trend x - D(x) is not a polynomial of degree <= {pe}: component outside that space {out:.6g} > "
-                             f"{DETREND_REL * rmsx + 1e-12 * amax:.3g} (order {p}, length {n})", {"sub": "detrend-removes-only-polynomial", "order": p}, rp)
-        # idempotence
-        r2 = np.asarray(impl_detrend(r, p), dtype=np.float64)
-        d = float(np.max(np.abs(r2 - r)))
-        if not within("detrend-idempotent", d, DETREND_REL * rmsx):
-            add_violation(P, f"detrend not idempotent: max|D(D(x)) - D(x)| = {d:.6g} > {DETREND_REL * rmsx:.3g} (order {p}, length {n})",
-                          {"sub": "detrend-idempotent", "order": p}, rp)
+        if not light:
+            Q, _ = np.linalg.qr(np.polynomial.legendre.legvander(t, pe))
+            tr = xf - r
+            out = float(np.max(np.abs(tr - Q @ (Q.T @ tr))))
+            if not within("detrend-removed-is-polynomial", out, DETREND_REL * rmsx + 1e-12 * amax):
+                add_violation(P, f"the removed trend x - D(x) is not a polynomial of degree <= {pe}: component outside that space {out:.6g} > "
+                                 f"{DETREND_REL * rmsx + 1e-12 * amax:.3g} (order {p}, length {n})", {"sub": "detrend-removes-only-polynomial", "order": p}, rp)
+            # idempotence
+            r2 = np.asarray(impl_detrend(r, p), dtype=np.float64)
+            d = float(np.max(np.abs(r2 - r)))
+            if not within("detrend-idempotent", d, DETREND_REL * rmsx):
+                add_violation(P, f"detrend not idempotent: max|D(D(x)) - D(x)| = {d:.6g} > {DETREND_REL * rmsx:.3g} (order {p}, length {n})",
+                              {"sub": "detrend-idempotent", "order": p}, rp)
         # order 0 = exact mean removal (np.mean pairwise: error <= log2(n) u max|x|; subtraction 2u max|x|)
         if p == 0:
             m = math.fsum(xf.tolist()) / n
@@ -500,11 +655,17 @@ def poly_eval(P: C.Part, n: int, p: int, coeffs: List[float]) -> None:
 DF_COLS = ["a", "b", "c", "i", "s", "d"]
 
 
-def make_frame(cs: int, n: int):
+def make_frame(cs: int, n: int, light: bool = False):
     import pandas as pd
     rng = np.random.default_rng(cs)
     t = tscaled(n)
     idx = rng.permutation(n) * 3 + 7                         # non-default, unsorted index
+    if light:                                                # long records: two float columns and an integer one (no 1e6 strings / timestamps)
+        return pd.DataFrame({
+            "a": rng.standard_normal(n) + 40 * t ** 3 - 25 * t ** 2 + 9 * t + 3 + 12 * t ** 5,
+            "c": 5.0 + 7 * t ** 2 - 11 * t ** 3 + 0.1 * rng.standard_normal(n),
+            "i": (rng.integers(-50, 50, n) + (np.arange(n) // 1000) ** 2 // 7).astype(np.int64),
+        }, index=idx)
     return pd.DataFrame({
         "a": rng.standard_normal(n) + 40 * t ** 3 - 25 * t ** 2 + 9 * t + 3 + 12 * t ** 5,   # curvature: every order gives a different result
         "b": np.cumsum(rng.standard_normal(n)) + 30 * t ** 4 - 17 * t ** 2,
@@ -519,7 +680,7 @@ def df_eval(P: C.Part, spec: Dict[str, Any]) -> None:
     import pandas as pd
     from speckit.dsp import df_detrend
     n, order, cols, inplace, suffix = int(spec["n"]), int(spec["order"]), spec["columns"], bool(spec["inplace"]), spec["suffix"]
-    df = make_frame(int(spec["case_seed"]), n)
+    df = make_frame(int(spec["case_seed"]), n, bool(spec.get("light", False)))
     df0 = df.copy(deep=True)
     rp = {"kind": "df", **spec}
     P.cases += 1
@@ -959,6 +1120,757 @@ def gen_differential(ctx, P: C.Part, crng: np.random.Generator, rms_cases, det_c
 
 
 # =====================================================================================================================
+#  SIZE sweep (family S): long records / long grids, sizes around the integer constants of the current source
+# =====================================================================================================================
+LONG_N = (70_001, 1_100_003)            # beyond 2**16 and beyond 2**20 / 1e6: well past anything in the regular generators (<= 20 000)
+POW2_MARKS = (1 << 15, 1 << 16, 1 << 17, 1 << 20)
+LONG_SERIES = ["trend", "offset", "walk", "step", "int", "white", "tiny"]      # trend / offset first: a term dropped beyond a threshold shows
+
+
+def _blas_handles() -> List[Tuple[Any, Any]]:
+    """(get_num_threads, set_num_threads) of every OpenBLAS loaded into this process"""
+    out: List[Tuple[Any, Any]] = []
+    try:
+        paths = sorted({ln.split()[-1] for ln in open("/proc/self/maps") if "openblas" in ln.lower() and ".so" in ln})
+    except Exception:
+        return out
+    for pth in paths:
+        try:
+            h = ctypes.CDLL(pth)
+        except Exception:
+            continue
+        for stem in ("scipy_openblas_", "openblas_"):
+            for suf in ("64_", "_64_", "", "_"):
+                g, s = getattr(h, f"{stem}get_num_threads{suf}", None), getattr(h, f"{stem}set_num_threads{suf}", None)
+                if g is not None and s is not None:
+                    out.append((g, s))
+                    break
+            else:
+                continue
+            break
+    return out
+
+
+@contextlib.contextmanager
+def one_blas_thread():
+    """PERFORMANCE only: the runner imports NumPy before speckit, so speckit's `OPENBLAS_NUM_THREADS=1` default comes too late and every LAPACK /
+    matmul call of the long-record and NumPy-backend cases spins 16 BLAS threads (measured on a loaded machine: polyfit at 1.1e6 samples 1.2-1.7 s
+    vs 0.4 s, a NumPy-backend analysis of 2000 samples 4-9 s vs 0.04-0.3 s). Limits the loaded OpenBLAS to one thread for the duration of
+    the sweep streams and restores the previous setting. No predicate depends on it (bit-identity is only demanded between two runs inside)."""
+    hs = _blas_handles()
+    old = []
+    for g, s in hs:
+        try:
+            old.append(int(g()))
+            s(1)
+        except Exception:
+            old.append(None)
+    try:
+        yield len(hs)
+    finally:
+        for (g, s), o in zip(hs, old):
+            if o:
+                try:
+                    s(o)
+                except Exception:
+                    pass
+
+
+def mined_constants() -> List[int]:
+    """integer constants (>= 16) of the CURRENT speckit/dsp.py (the whole file: polynomial_detrend, df_detrend, crop_data, integral_rms and any
+    helper a change may add) and of SpectrumResult.get_rms; on the unchanged tree: [31]"""
+    out: List[int] = []
+    try:
+        out += C.mined_sizes(["speckit/dsp.py"])
+        out += C.mined_sizes(["speckit/analysis.py"], lo=1024, names=["get_rms"])
+    except Exception:
+        pass
+    return sorted(set(int(c) for c in out))
+
+
+def probe_sizes(cap: int, limit: int) -> List[int]:
+    """sizes around every mined constant c, at most `cap` samples each and `limit` sizes in all. Order = priority under a time budget: the sizes
+    ABOVE a threshold first (c+1, c+17, 2c+3 — where block-wise code takes its second block), then c and c-1; larger constants first."""
+    out: List[int] = []
+    cs = sorted(mined_constants(), reverse=True)
+    for group in ((1, 17), (None,), (0, -1)):
+        for c in cs:
+            for d in group:
+                n = 2 * c + 3 if d is None else c + d
+                if 2 <= n <= cap and n not in out and n not in LONG_N:
+                    out.append(n)
+    return out[:limit]
+
+
+def detrend_long(ctx, P: C.Part, rng: np.random.Generator, intensive: bool) -> None:
+    """polynomial_detrend / df_detrend on LONG records, every order 0..5 at every size. Predicates and tolerances are those of detrend_eval /
+    poly_eval / df_eval (global over the WHOLE output: orthogonality sums run over all samples, 'the removed part is a polynomial', idempotence and
+    polynomial -> 0 are maxima over all samples, so the last block counts as much as the first)."""
+    t_in = ctx.time_left()
+    deep = bool(ctx.thorough or intensive)
+    budget = 60.0 if ctx.thorough else (30.0 if intensive else 9.0)      # the quick tier stays quick also when an obligation broke
+    sizes = list(LONG_N) + probe_sizes(2_300_000 if deep else 1_200_000, 40 if deep else 15) + ([250_007, 2_200_003] if deep else [])
+    for si, n in enumerate(sizes):
+        big = n > 200_000
+        if big and not deep:
+            full_orders = {0} | {int(v) for v in rng.choice([1, 2, 3, 4, 5], size=(2 if n in LONG_N else 1), replace=False)}
+        elif n == 2_200_003:
+            full_orders = {0, 3}                       # t**3 passes 2**63 only beyond 2.1e6 samples
+        else:
+            full_orders = set(range(6))
+        orders = list(range(6)) if n > 2000 else [int(v) for v in rng.choice(6, size=2, replace=False)]
+        for p in orders:
+            if t_in - ctx.time_left() > budget or ctx.time_left() < 40 or len(P.violations) >= MAX_VIOL:
+                P.notes.append(f"long detrend stream stopped at n={n} order={p} (time budget)")
+                return
+            kind = LONG_SERIES[(si + p) % len(LONG_SERIES)]
+            cs = int(rng.integers(0, 2 ** 62))
+            x = make_series(cs, n, kind)
+            P.hit("long-detrend-n=%s" % ("<=2000" if n <= 2000 else "<=2e5" if n <= 200_000 else ">2e5"))
+            detrend_eval(P, x, p, {"gen": {"case_seed": cs, "n": n, "series": kind}}, light=(p not in full_orders))
+            if p >= 1 and (not big or deep or p == max(full_orders)):
+                coeffs = (rng.standard_normal(p + 1) * 10 ** rng.uniform(-2, 2, p + 1)).tolist()
+                if coeffs[p] == 0.0:
+                    coeffs[p] = 1.0
+                poly_eval(P, n, p, coeffs)                       # a polynomial of FULL degree p at this length
+    # df_detrend: the wrapper on long frames (its own loop / assignment may be block-wise even when polynomial_detrend is not)
+    dsizes = [n for n in sizes if n > 2000]
+    for di, n in enumerate(dsizes):
+        big = n > 200_000
+        nspec = (1 if big else 3) * (2 if deep else 1)
+        for k in range(nspec):
+            if t_in - ctx.time_left() > budget + (20.0 if ctx.thorough else 8.0 if intensive else 4.0) or ctx.time_left() < 40 or len(P.violations) >= MAX_VIOL:
+                P.notes.append(f"long df_detrend stream stopped at n={n} (time budget)")
+                return
+            cols = [None, ["a", "i"], ["c"], ["i", "a", "c"]][(di + k) % 4] if not big else [["a"], ["i"], ["c", "a"]][int(rng.integers(0, 3))]
+            spec = {"case_seed": int(rng.integers(0, 2 ** 62)), "n": n, "order": int(rng.integers(0, 6)) if k else [5, 4, 0, 3, 1, 2][di % 6],
+                    "columns": cols, "inplace": bool(rng.integers(0, 2)), "suffix": [None, "_x"][int(rng.integers(0, 2))], "light": True}
+            P.hit("long-df_detrend")
+            df_eval(P, spec)
+    P.notes.append(f"size sweep, detrend: sizes {sizes}, {t_in - ctx.time_left():.1f}s")
+
+
+# ---------------------------------------------------------------- long / zero-rich / unsorted grids
+BIG_GRIDS = ["lin", "log", "rand", "dup", "randlog", "lin0"]
+
+
+def make_grid(spec: Dict[str, Any]) -> Tuple[np.ndarray, np.ndarray]:
+    """the (grid, ASD) of a generated case: reproducible from (case_seed, n, grid kind, asd kind) — grids of 1e6 points are not stored in replays"""
+    rng = np.random.default_rng(int(spec["case_seed"]))
+    f = gen_grid(rng, int(spec["n"]), spec["grid"])
+    y = gen_asd(rng, f, spec["asd"])
+    return f, y
+
+
+def index_marks(n: int, rng: np.random.Generator) -> List[int]:
+    """grid indices at which a block-wise implementation would change block: multiples of the mined constants and of 2**15 .. 2**20, plus the
+    first and the last points"""
+    marks = {0, 1, n - 2, n - 1}
+    for c in list(POW2_MARKS) + mined_constants():
+        if 1 < c < n:
+            ks = {1, (n - 1) // c} | {int(v) for v in rng.integers(1, (n - 1) // c + 1, size=2)}
+            marks |= {k * c for k in ks}
+    return sorted(m for m in marks if 0 <= m < n)
+
+
+def window_checks(P: C.Part, rng: np.random.Generator, f: np.ndarray, y: np.ndarray, origin: Dict[str, Any], limit: int) -> None:
+    """bands a few grid points wide around every index mark (edges ON grid points and BETWEEN grid points), the last / first points with an
+    infinite or outside edge, and additivity split exactly AT the mark: the power of a narrow band is not hidden behind the full-band total"""
+    n = len(f)
+    marks = index_marks(n, rng)
+    if len(marks) > limit:
+        keep = {0, 1, n - 2, n - 1}
+        rest = [m for m in marks if m not in keep]
+        marks = sorted(keep & set(marks)) + [rest[int(i)] for i in rng.choice(len(rest), size=max(0, limit - 4), replace=False)]
+
+    def mid(i: int) -> float:
+        return float(f[i] + 0.5 * (f[i + 1] - f[i]))
+    for c in marks:
+        w = int(rng.integers(1, 4))
+        lo, hi = max(0, c - w), min(n - 1, c + w)
+        rms_eval(P, f, y, "spec", [(float(f[lo]), float(f[hi]))], tag="mark_grid", origin=origin)
+        if lo >= 1 and hi + 1 <= n - 1:
+            rms_eval(P, f, y, "spec", [(mid(lo - 1), mid(hi))], tag="mark_between", origin=origin)
+        if 0 < c < n - 1:
+            rms_eval(P, f, y, "split", [float(f[lo]), float(f[c]), float(f[hi])], tag="mark-split", origin=origin)
+    span = float(f[-1] - f[0]) or 1.0
+    rms_eval(P, f, y, "spec", [(float(f[n - 3]) if n >= 3 else float(f[0]), math.inf)], tag="last_inf", origin=origin)
+    rms_eval(P, f, y, "spec", [(mid(n - 2), float(f[-1]) + span)], tag="last_one_point", origin=origin)
+    rms_eval(P, f, y, "spec", [(-math.inf, float(f[min(2, n - 1)]))], tag="first_inf", origin=origin)
+    rms_eval(P, f, y, "mono", [(float(f[n // 2]), float(f[n - 2])), (float(f[n // 2]), float(f[n - 1]))], tag="last", origin=origin)
+
+
+def rms_sized(ctx, P: C.Part, rng: np.random.Generator, intensive: bool) -> None:
+    """integral_rms on (a) small and medium grids with the zero-rich / tiny / huge ASD kinds, (b) unsorted grids (stored-order trapezoid), (c) LONG
+    grids (70 001 and 1 100 003 points and sizes around the mined constants). Predicates: rms_eval (independent trapezoid over ALL grid points
+    inside the band, monotone under nesting, additive at grid-point splits, super-additive elsewhere); tolerance rel_tol(n) = 8 (n + 10) u."""
+    t_in = ctx.time_left()
+    deep = bool(ctx.thorough or intensive)
+    # (a) every zero-rich ASD kind on sizes 2 .. 2000, every grid kind
+    na = 66 * (4 if deep else 1)
+    for i in range(na):
+        if ctx.time_left() < 40 or len(P.violations) >= MAX_VIOL:
+            return
+        n = [2, 3, 4, 5, 7, 12][i % 6] if i < 18 else int(rng.integers(6, 2001 if i % 3 else 80))
+        gk = GRID_KINDS[i % len(GRID_KINDS)]
+        ak = ASD_KINDS_X[5:][(i // 2) % 6] if i % 4 else ASD_ZERO_KINDS[(i // 4) % len(ASD_ZERO_KINDS)]
+        f = gen_grid(rng, n, gk)
+        y = gen_asd(rng, f, ak)
+        P.hit(f"asd-{ak}")
+        rms_grid_checks(P, rng, f, y, gk, nbands=3)
+    # (b) unsorted grids: duplicates allowed, zeros allowed
+    nb = 40 * (4 if deep else 1)
+    for i in range(nb):
+        if ctx.time_left() < 40 or len(P.violations) >= MAX_VIOL:
+            return
+        n = [2, 3, 4, 6][i % 4] if i < 8 else int(rng.integers(5, 1500 if i % 3 else 40))
+        f = gen_grid(rng, n, "unsorted")
+        if i % 5 == 2:
+            f = rng.permutation(gen_grid(rng, n, "dup"))                       # unsorted AND duplicate frequencies
+        y = gen_asd(rng, f, ASD_KINDS_X[i % len(ASD_KINDS_X)] if i % 6 != 1 else "white")
+        fsort = np.sort(f)
+        for mode in ["none", "cover", "inf_left", "inf_right", "grid_grid", "inside", "between", "one_point", "outside_right"] if len(f) >= 2 else ["none", "cover"]:
+            rms_eval(P, f, y, "uspec", [gen_band(rng, fsort, mode)], variant=int(rng.choice([0, 0, 1, 2])), tag=mode)
+    # (c) long grids
+    budget = 40.0 if ctx.thorough else (20.0 if intensive else 7.0)
+    sizes = list(LONG_N) + [n for n in probe_sizes(2_300_000 if deep else 1_200_000, 30 if deep else 10) if n > 2000]
+    for si, n in enumerate(sizes):
+        big = n > 200_000
+        plans = [("sorted", "pos"), ("sorted", "zero")] + ([("unsorted", "any")] if (not big or deep) else [])
+        if big and not deep and n not in LONG_N:
+            plans = [plans[si % 2]]
+        for which, ak_ in plans:
+            if t_in - ctx.time_left() > budget or ctx.time_left() < 40 or len(P.violations) >= MAX_VIOL:
+                P.notes.append(f"long rms stream stopped at n={n} (time budget)")
+                return
+            gk = BIG_GRIDS[int(rng.integers(0, len(BIG_GRIDS)))] if which == "sorted" else "unsorted"
+            ak = {"pos": ["powerlaw", "lognormal", "white", "huge", "tiny"][int(rng.integers(0, 5))],
+                  "zero": ASD_ZERO_KINDS[int(rng.integers(0, len(ASD_ZERO_KINDS)))],
+                  "any": ASD_KINDS_X[int(rng.integers(0, len(ASD_KINDS_X)))]}[ak_]
+            origin = {"kind": "rmsgen", "case_seed": int(rng.integers(0, 2 ** 62)), "n": n, "grid": gk, "asd": ak}
+            f, y = make_grid(origin)
+            P.hit("long-rms-n=%s" % ("<=2e5" if not big else ">2e5"))
+            P.hit(f"long-rms-{gk}-{ak}")
+            if which == "unsorted":
+                fsort = np.sort(f)
+                for mode in ["none", "cover", "inf_left", "inf_right", "grid_grid", "inside", "between"]:
+                    rms_eval(P, f, y, "uspec", [gen_band(rng, fsort, mode)], tag=mode, origin=origin)
+                continue
+            rms_grid_checks(P, rng, f, y, gk, nbands=(2 if big and not deep else 5), origin=origin)
+            window_checks(P, rng, f, y, origin, limit=(8 if big and not deep else 16))
+    P.notes.append(f"size sweep, integral_rms: long sizes {sizes}, {t_in - ctx.time_left():.1f}s")
+
+
+# =====================================================================================================================
+#  OPTION sweep (family O): get_rms on results of every (backend, order) pair / entry point / scheduler / overlap form / window / layout
+# =====================================================================================================================
+O_ORDERS = (-1, 0, 1, 2)
+O_SCHEDS = ["vectorized_ltf", "welch", "lpsd", "repeatL", "ltf", "new_ltf"]
+O_OLAPS = ["default", "float", "zero", "high"]
+O_WINS = ["kaiser", "hann", "callable", "default"]
+O_ENTRIES = ["analyzer", "compute_spectrum", "lpsd"]
+O_SB_ENTRIES = ["analyzer-L", "module-fres", "analyzer-fres", "module-L"]
+O_CROSS_LAYOUTS = ["2xN", "Nx2", "list"]
+
+
+def sweep_window(L: int) -> np.ndarray:
+    """a positive user window whose values depend on L"""
+    return 0.5 + ((np.arange(L) * 7 + 3 * L) % 11) / 11
+
+
+def welch_sched(Lw: int):
+    """a user scheduler: ONE fixed segment length (Welch), bins k*fs/L for k = 1 .. L/2, segments every max(1, floor((1-olap) L)) samples"""
+    def welch_plan(N, fs, olap, **kw):
+        L = int(min(Lw, N))
+        shift = max(1, int((1.0 - float(olap)) * L))
+        starts = np.arange(0, int(N) - L + 1, shift, dtype=np.int64)
+        k = np.arange(1, L // 2 + 1)
+        nf = len(k)
+        return {"f": k * float(fs) / L, "r": np.full(nf, float(fs) / L), "b": k.astype(np.float64), "L": np.full(nf, L, dtype=np.int64),
+                "K": np.full(nf, len(starts), dtype=np.int64), "navg": np.full(nf, len(starts), dtype=np.int64),
+                "D": [starts.copy() for _ in range(nf)], "O": np.full(nf, float(olap))}
+    welch_plan.__name__ = f"welch_plan_{Lw}"
+    return welch_plan
+
+
+def repeat_sched(base: int):
+    """a user scheduler that lists a segment length AGAIN after a different one (b, 4b, b, b-1, 4b, b+1, b, 4b, b+1, b-1 — the 256, 1024, 256
+    pattern), both parities, frequencies not tied to L (ascending for an even base, two of them exchanged for an odd base), at most 24 segments per bin"""
+    def repeat_plan(N, fs, olap, **kw):
+        b = int(max(8, min(base, int(N) // 5)))
+        Ls = [min(int(N), v) for v in (b, 4 * b, b, b - 1, 4 * b, b + 1, b, 4 * b, b + 1, b - 1)]
+        nf = len(Ls)
+        f = float(fs) * (0.03 + 0.44 * np.arange(nf) / (nf - 1))
+        if base % 2:                                    # odd base: the frequencies are NOT ascending (an unsorted result grid)
+            f[[2, 5]] = f[[5, 2]]
+        L = np.array(Ls, dtype=np.int64)
+        D = []
+        for Lj in Ls:
+            shift = max(1, int((1.0 - float(olap)) * Lj))
+            D.append(np.arange(0, int(N) - Lj + 1, shift, dtype=np.int64)[:24])
+        K = np.array([len(d) for d in D], dtype=np.int64)
+        r = float(fs) / L
+        return {"f": f, "r": r, "b": f / r, "L": L, "K": K, "navg": K.copy(), "D": D, "O": np.full(nf, float(olap))}
+    repeat_plan.__name__ = f"repeat_plan_{base}"
+    return repeat_plan
+
+
+# configurations on which the Parseval thresholds were measured (unchanged library, numba, 12 seeds x N in {2000, 4000} x orders -1..2 x white / red
+# records carrying an offset of 50 sigma and a linear / quadratic trend of 80 / 60 sigma where the order removes them): worst deviation
+# white 3.4 %, red 10.0 % (thresholds 15 % / 35 %). Welch plans with L = 255 / 512 and few averages reach 18 % on red records and are NOT used.
+PARS_CFGS: List[Dict[str, Any]] = [{}, {"Jdes": 200}, {"olap": 0.5, "Jdes": 500}, {"win": "hann"}, {"scheduler": "lpsd", "Jdes": 300}, {"scheduler": "ltf"},
+                                   {"scheduler": "new_ltf"}, {"scheduler": "welch:256"}]
+
+
+def o_record(spec: Dict[str, Any]) -> Tuple[np.ndarray, float]:
+    """noise (white / low-pass red) + what the detrending order removes EXACTLY from every segment: an offset (order >= 0), a line (>= 1), a
+    parabola (2) — a kernel branch that drops a term leaks it into the spectrum. Returns (record, time-domain std of the noise part)."""
+    rng = np.random.default_rng(int(spec["rec_seed"]))
+    N = int(spec["N"])
+    z = rng.standard_normal(N)
+    if spec["noise"] == "red":
+        import scipy.signal as ss
+        b, a = ss.butter(1, 0.05)
+        z = ss.lfilter(b, a, z)
+    z = float(spec["amp"]) * z
+    s = float(np.std(z))
+    t = tscaled(N)
+    k = float(spec.get("trend", 50.0))
+    x = z.copy()
+    order = int(spec["order"])
+    if order >= 0:
+        x = x + k * s
+    if order >= 1:
+        x = x + 1.6 * k * s * t
+    if order >= 2:
+        x = x - 1.2 * k * s * t * t
+    return x, s
+
+
+def o_kwargs(spec: Dict[str, Any], backend: str) -> Dict[str, Any]:
+    kw: Dict[str, Any] = {"order": int(spec["order"]), "backend": backend}
+    if spec["mode"] == "parseval":
+        kw.update(PARS_CFGS[int(spec["cfg"])])
+    else:
+        kw.update(Jdes=int(spec["Jdes"]), Kdes=int(spec["Kdes"]), Lmin=int(spec["Lmin"]), scheduler=spec["scheduler"])
+        ol = spec["olap"]
+        kw["olap"] = {"default": "default", "float": float(spec["olap_val"]), "zero": 0.0, "high": 0.9995}[ol]
+        w = spec["win"]
+        if w == "kaiser":
+            kw.update(win="kaiser", psll=float(spec["psll"]))
+        elif w == "hann":
+            kw.update(win="hann")
+        elif w == "callable":
+            kw.update(win=sweep_window)
+        else:
+            kw.update(psll=float(spec["psll"]))           # the constructor's default window
+    sch = kw.get("scheduler")
+    if isinstance(sch, str) and sch.startswith("welch"):
+        kw["scheduler"] = welch_sched(int(sch.split(":")[1]) if ":" in sch else int(spec["sched_par"]))
+    elif sch == "repeatL":
+        kw["scheduler"] = repeat_sched(int(spec["sched_par"]))
+    return kw
+
+
+def o_call(spec: Dict[str, Any], backend: str, data: Any):
+    """-> (result, analyzer or None)"""
+    import speckit
+    from speckit.analysis import SpectrumAnalyzer
+    kw = o_kwargs(spec, backend)
+    fs = float(spec["fs"])
+    with warnings.catch_warnings():
+        warnings.simplefilter("ignore")
+        e = spec["entry"]
+        if e == "analyzer":
+            an = SpectrumAnalyzer(data, fs, **kw)
+            return an.compute(), an
+        if e == "compute_spectrum":
+            return speckit.compute_spectrum(data, fs, **kw), None
+        if e == "lpsd":
+            return speckit.lpsd(data, fs, **kw), None
+        L = int(spec["sb_L"])
+        freq = float(spec["sb_freq"]) * fs
+        req = {"L": L} if e.endswith("-L") else {"fres": fs / L}
+        if e.startswith("analyzer"):
+            an = SpectrumAnalyzer(data, fs, **kw)
+            return an.compute_single_bin(freq, **req), an
+        return speckit.compute_single_bin(data, fs, freq, **req, **kw), None
+
+
+def trap_weights(f: np.ndarray) -> np.ndarray:
+    w = np.zeros(len(f))
+    d = np.diff(f)
+    w[:-1] += d / 2
+    w[1:] += d / 2
+    return w
+
+
+def backend_budget(res, xmax: float, order: int, fs: float) -> Optional[float]:
+    """rounding budget of the full-band POWER of one auto result: sum_j w_j (G_j / XX_j) * tXX_j with w_j the trapezoid weights, tXX_j the forward bound
+    of XX in bin j (_an.bin_tol, the budget of C01/C05: Goertzel growth, x8 for orders >= 1) with the magnitude scale a_j <= max|x| sum|w| = max|x|
+    sqrt(S12_j) (all windows used here are non-negative), plus 64 u (L_j + 4) G_j for the window sums. None when a bin has XX = 0 < G or the grid is
+    not sorted."""
+    from . import _an as A
+    f = np.asarray(res.f, dtype=np.float64)
+    G = np.asarray(res.asd, dtype=np.float64) ** 2
+    XX = np.asarray(res.XX, dtype=np.float64)
+    S12 = np.asarray(res.S12, dtype=np.float64)
+    Ls = np.asarray(res.L)
+    if len(f) < 2 or not np.all(np.diff(f) >= 0):
+        return None
+    w = trap_weights(f)
+    B = 0.0
+    for j in range(len(f)):
+        a = math.sqrt(max(float(S12[j]), 0.0)) * xmax
+        tXX = A.bin_tol(int(Ls[j]), 2 * math.pi * float(f[j]) / fs, a, a, order)[0]
+        if XX[j] > 0:
+            B += float(w[j]) * (float(G[j]) / float(XX[j]) * tXX + 64 * U * (int(Ls[j]) + 4) * float(G[j]))
+        elif G[j] > 0:
+            return None
+    return B
+
+
+def get_rms_claims(P: C.Part, res, rng: np.random.Generator, rp: Dict[str, Any], label: str) -> Optional[float]:
+    """every C19 claim about SpectrumResult.get_rms on ONE auto result: = integral_rms(f, asd, sorted band) = the independent trapezoid over the bins
+    inside the band (sorted grids; stored-order signed trapezoid on an unsorted grid of a user scheduler), reversed band accepted, monotone /
+    additive at a bin / super-additive through get_rms itself, the same answer when the same band is asked again after other bands, f and asd
+    untouched. Returns the full-band RMS."""
+    from speckit.dsp import integral_rms
+    f = np.array(res.f, dtype=np.float64)
+    asd = np.array(res.asd, dtype=np.float64)
+    n = len(f)
+    if n == 0 or asd.shape != f.shape or not (np.all(np.isfinite(f)) and np.all(np.isfinite(asd))):
+        P.notes.append(f"{label}: result without a finite ASD on its grid (belongs to other properties)"[:160])
+        return None
+    sorted_grid = bool(np.all(np.diff(f) >= 0))
+    fs_ = np.sort(f)
+    P.hit("get_rms-grid-sorted" if sorted_grid else "get_rms-grid-unsorted")
+
+    def sub(what: str, **kw) -> Dict[str, Any]:
+        return dict({"sub": what, "via": "option-sweep"}, **kw)
+    bands: List[Any] = [None, (float(fs_[0]), float(fs_[-1])), (float(fs_[-1]), float(fs_[0]))]
+    for mode in ["inside", "grid_grid", "left_out", "right_out", "outside_left", "outside_right", "between", "one_point", "grid_in", "in_grid", "cover", "degenerate_grid"]:
+        b = gen_band(rng, fs_, mode)
+        if rng.random() < 0.5:
+            b = (b[1], b[0])
+        bands.append(b)
+    with warnings.catch_warnings():
+        warnings.simplefilter("ignore")
+        full = float(integral_rms(f, asd, None))
+    if not sorted_grid:        # the signed area of an unsorted grid can vanish or be negative (NaN): scale by the sum of |panels| instead
+        full = math.sqrt(float(np.sum(np.abs(np.diff(f)) * (asd[1:] ** 2 + asd[:-1] ** 2) / 2))) if n >= 2 else 0.0
+    first: Dict[int, float] = {}
+    for bi, b in enumerate(bands):
+        P.cases += 1
+        P.hit("get_rms")
+        sb = None if b is None else (min(b), max(b))
+        swapped = b is not None and b[0] > b[1]
+        if swapped:
+            P.hit("get_rms-swapped-band")
+        try:
+            with warnings.catch_warnings():
+                warnings.simplefilter("ignore")
+                v = res.get_rms(b)
+                e = float(integral_rms(f, asd, sb))
+        except Exception as ex:
+            add_violation(P, f"{label}: get_rms({b}) raised {ex!r} ({n} bins)", sub("get_rms-raises", swapped=swapped), dict(rp, band=b, error=repr(ex)))
+            continue
+        first[bi] = v
+        if e > 0:
+            P.nontrivial.add(("get_rms-sweep", label, bi))
+        same = isinstance(v, float) and ((math.isnan(v) and math.isnan(e)) or within("get_rms", abs(v - e), 1e-12 * full))
+        if not same:
+            add_violation(P, f"{label}: get_rms({b}) = {v!r} but integral_rms(f, asd, {sb}) = {e!r} (full band {full!r})", sub("get_rms-equals-integral", swapped=swapped), dict(rp, band=b))
+            continue
+        if sorted_grid:
+            ref, npts = ref_power(f, asd, sb)
+            if not (abs(v * v - ref) <= rel_tol(n) * ref + GUARD):
+                add_violation(P, f"{label}: get_rms({b})^2 = {v * v!r} but the trapezoid sum of asd^2 over the {npts} bins inside is {ref!r}", sub("get_rms-spec"), dict(rp, band=b))
+    if not sorted_grid:                                  # stored-order trapezoid on the unsorted grid, through get_rms
+        for mode in ["none", "cover", "inside", "grid_grid"]:
+            b = gen_band(rng, fs_, mode)
+            if b is None or (math.isfinite(b[0]) and math.isfinite(b[1])):
+                rms_eval(P, f, asd, "uspec", [b], tag="result-" + mode, origin=rp, fn=res.get_rms)
+    elif n >= 2:                                          # nesting / additivity through get_rms itself
+        for _ in range(2):
+            q = sorted(float(fs_[int(rng.integers(0, n))]) if rng.random() < 0.5 else pick(rng, fs_) for _ in range(4))
+            rms_eval(P, f, asd, "mono", [(q[1], q[2]), (q[0], q[3])], tag="result", origin=rp, fn=res.get_rms)
+            i = int(rng.integers(0, n))
+            lo, hi = int(rng.integers(0, i + 1)), int(rng.integers(i, n))
+            rms_eval(P, f, asd, "split", [float(f[lo]), float(f[i]), float(f[hi])], tag="result", origin=rp, fn=res.get_rms)
+            m = pick(rng, fs_)
+            rms_eval(P, f, asd, "split", [float(f[0]), m, float(f[-1])], tag="result", origin=rp, fn=res.get_rms)
+    # the same bands asked again, in reverse order, AFTER all the other queries: same code path on an immutable result -> bit-identical
+    for bi in sorted(first, reverse=True):
+        P.cases += 1
+        try:
+            with warnings.catch_warnings():
+                warnings.simplefilter("ignore")
+                v2 = res.get_rms(bands[bi])
+        except Exception as ex:
+            add_violation(P, f"{label}: the second get_rms({bands[bi]}) raised {ex!r}", sub("get_rms-repeat"), dict(rp, band=bands[bi], error=repr(ex)))
+            continue
+        v1 = first[bi]
+        if not (v2 == v1 or (isinstance(v2, float) and math.isnan(v1) and math.isnan(v2))):
+            add_violation(P, f"{label}: get_rms({bands[bi]}) = {v1!r} at first, {v2!r} when asked again after other bands on the same result", sub("get_rms-repeat"), dict(rp, band=bands[bi]))
+    if not (np.array_equal(np.asarray(res.f, dtype=np.float64), f) and np.array_equal(np.asarray(res.asd, dtype=np.float64), asd)):
+        add_violation(P, f"{label}: result.f / result.asd changed while get_rms was called", sub("get_rms-mutates-result"), rp)
+    with warnings.catch_warnings():
+        warnings.simplefilter("ignore")
+        return float(integral_rms(f, asd, None))
+
+
+def o_full(P: C.Part, spec: Dict[str, Any]) -> Optional[float]:
+    """one analysis-level case: the SAME record and options on the NumPy backend and on the Numba backend (requested as 'numba' or 'auto')"""
+    x, s = o_record(spec)
+    xmax = float(np.max(np.abs(x)))
+    fs, order = float(spec["fs"]), int(spec["order"])
+    rp = {"kind": "ocase", **spec}
+    rng = np.random.default_rng(int(spec["rec_seed"]) + 7)
+    out: Dict[str, Any] = {}
+    dev = None
+    for be in ("numpy", spec["nb"]):
+        label = f"[{spec['entry']} backend={be} order={order} {spec['mode']}:{spec.get('scheduler', spec.get('cfg'))} olap={spec.get('olap')} win={spec.get('win')} N={spec['N']}]"
+        xin = x.copy()
+        data = xin.tolist() if spec["layout"] == "list" else xin
+        try:
+            res, an = o_call(spec, be, data)
+            asd_ok = res.asd is not None and not res.iscsd
+        except Exception as ex:      # planning / computation problems belong to other properties
+            P.hit("O-analysis-failed")
+            P.notes.append(f"option sweep: {label} failed: {ex!r}"[:200])
+            return None
+        P.hit(f"O-auto:{'numpy' if be == 'numpy' else 'numba'}:order={order}")
+        P.hit(f"O-entry:{spec['entry']}")
+        P.hit(f"O-backend-arg:{be}")
+        if spec["mode"] == "sweep":
+            for kk in ("scheduler", "olap", "win", "layout"):
+                P.hit(f"O-{kk}:{spec[kk]}")
+            P.hit("O-Lparity:" + "+".join(sorted({"odd" if int(v) % 2 else "even" for v in np.asarray(res.L)})))
+            P.hit("O-K:" + "+".join(sorted({("1" if int(v) == 1 else "2" if int(v) == 2 else ">2") for v in np.asarray(res.K)})))
+        if not asd_ok:
+            add_violation(P, f"{label}: a one-channel analysis returned a result without ASD (iscsd={res.iscsd})", {"sub": "O-auto-result-without-asd"}, rp)
+            return None
+        if not np.array_equal(xin, x):
+            add_violation(P, f"{label}: the input array was modified by the analysis", {"sub": "O-input-modified", "backend": be, "order": order}, rp)
+        full = get_rms_claims(P, res, rng, rp, label)
+        if full is None:
+            return None
+        out[be] = (res, full)
+        if spec.get("repeat"):
+            # second call on the same analyzer (or the same module-level call on the same input array): same code path -> bit-identical
+            try:
+                with warnings.catch_warnings():
+                    warnings.simplefilter("ignore")
+                    res2 = an.compute() if an is not None else o_call(spec, be, data)[0]
+                    same = (np.array_equal(np.asarray(res2.f), np.asarray(res.f)) and np.array_equal(np.asarray(res2.asd), np.asarray(res.asd))
+                            and res2.get_rms() == res.get_rms())
+            except Exception as ex:
+                same = False
+                P.notes.append(f"option sweep: second call of {label} raised {ex!r}"[:200])
+            P.cases += 1
+            P.hit("O-second-call")
+            if not same:
+                add_violation(P, f"{label}: the second call on the same analyzer / input gives a different f / asd / full-band RMS than the first",
+                              {"sub": "O-second-call-differs", "backend": be, "order": order}, rp)
+            if not np.array_equal(xin, x):
+                add_violation(P, f"{label}: the input array was modified by the second call", {"sub": "O-input-modified", "backend": be, "order": order}, rp)
+        if spec["mode"] == "parseval":
+            P.cases += 1
+            P.hit("parseval-" + spec["noise"])
+            dev = full / s - 1.0
+            P.nontrivial.add(("parseval-sweep", be, order, spec["noise"], spec["cfg"], spec["N"]))
+            thr = PARSEVAL_THR[spec["noise"]]
+            if not within("parseval-" + spec["noise"], abs(dev), thr):
+                add_violation(P, f"{label}: full-band RMS of the computed ASD = {full:.6g} but the time-domain RMS of the record (after removing what order "
+                                 f"{order} removes) is {s:.6g} (deviation {100 * dev:+.1f} %, allowed {100 * thr:.0f} %); {spec['noise']} noise fs={fs}",
+                              {"sub": "parseval", "noise": spec["noise"], "backend": be, "order": order}, rp)
+    # the two backends under identical options
+    (r1, p1), (r2, p2) = out["numpy"], out[spec["nb"]]
+    P.cases += 1
+    P.hit("O-backend-agreement")
+    if np.array_equal(np.asarray(r1.f), np.asarray(r2.f)):
+        B1, B2 = backend_budget(r1, xmax, order, fs), backend_budget(r2, xmax, order, fs)
+        if B1 is not None and B2 is not None:
+            n = len(r1.f)
+            tol = B1 + B2 + 2 * rel_tol(n) * max(p1 * p1, p2 * p2) + GUARD
+            P.nontrivial.add(("backend-agreement", order, spec["mode"], spec.get("scheduler", spec.get("cfg")), n))
+            if not within("backend-agreement", abs(p1 * p1 - p2 * p2), tol):
+                add_violation(P, f"full-band power differs between backends under identical options: numpy {p1 * p1!r}, {spec['nb']} {p2 * p2!r} "
+                                 f"(difference {abs(p1 * p1 - p2 * p2):.3g}, kernels' rounding budget {tol:.3g}); order={order} entry={spec['entry']} "
+                                 f"{spec['mode']}:{spec.get('scheduler', spec.get('cfg'))} N={spec['N']}", {"sub": "O-backend-agreement", "order": order}, rp)
+    else:
+        P.hit("O-backend-grids-differ")
+        P.notes.append(f"option sweep: frequency grids differ between backends for {spec.get('scheduler', spec.get('cfg'))} (belongs to C05)"[:160])
+    return dev
+
+
+def o_single(P: C.Part, spec: Dict[str, Any]) -> None:
+    """single-bin results (one grid point): get_rms is 0 for every band (fewer than two points), reversed bands accepted"""
+    x, s = o_record(spec)
+    fs, order = float(spec["fs"]), int(spec["order"])
+    rp = {"kind": "ocase", **spec}
+    for be in ("numpy", spec["nb"]):
+        label = f"[{spec['entry']} backend={be} order={order} L={spec['sb_L']} N={spec['N']}]"
+        xin = x.copy()
+        try:
+            res, _ = o_call(spec, be, xin.tolist() if spec["layout"] == "list" else xin)
+            f0 = float(np.asarray(res.f, dtype=np.float64).ravel()[0])
+            nb = int(np.asarray(res.f).size)
+        except Exception as ex:
+            P.hit("O-analysis-failed")
+            P.notes.append(f"option sweep: {label} failed: {ex!r}"[:200])
+            return
+        P.hit(f"O-single:{'numpy' if be == 'numpy' else 'numba'}:order={order}")
+        P.hit(f"O-entry:{spec['entry']}")
+        if nb != 1:
+            P.notes.append(f"option sweep: {label} returned {nb} bins (belongs to C05)")
+            continue
+        w = abs(f0) + fs
+        for b in [None, (f0 - 0.5 * w, f0 + 0.5 * w), (f0 + 0.5 * w, f0 - 0.5 * w), (f0, f0), (0.0, fs / 2), (f0, f0 + w), (f0 - w, f0), (f0 + 0.1 * w, f0 + w)]:
+            P.cases += 1
+            P.hit("get_rms-single-bin")
+            try:
+                with warnings.catch_warnings():
+                    warnings.simplefilter("ignore")
+                    v = res.get_rms(b)
+            except Exception as ex:
+                add_violation(P, f"{label}: get_rms({b}) on a single-bin result raised {ex!r}", {"sub": "get_rms-single-bin", "what": "raises"}, dict(rp, band=b, error=repr(ex)))
+                continue
+            if float(np.asarray(res.asd, dtype=np.float64).ravel()[0]) > 0:
+                P.nontrivial.add(("get_rms-single", be, order, spec["entry"]))
+            if not (isinstance(v, float) and v == 0.0):
+                add_violation(P, f"{label}: get_rms({b}) = {v!r} on a single-bin result (one grid point at {f0!r}); fewer than two points inside any band: must be 0",
+                              {"sub": "get_rms-single-bin", "what": "nonzero"}, dict(rp, band=b))
+        try:                                               # what the code does with a non-finite edge: ValueError (gen_get_rms_nonfinite); recorded
+            res.get_rms((-math.inf, f0))
+            P.hit("get_rms-infinite-edge-accepted")
+        except ValueError:
+            P.hit("get_rms-infinite-edge-ValueError")
+        except Exception:
+            P.hit("get_rms-infinite-edge-other-exception")
+
+
+def o_cross(P: C.Part, spec: Dict[str, Any]) -> None:
+    """two-channel results: asd is None, and get_rms REFUSES (NotImplementedError, raised before asd is read: theorem gen_get_rms_csd). A number
+    returned here would be 'the RMS' of a result that has no ASD to integrate: reported. Another exception type is recorded, not judged."""
+    x, s = o_record(spec)
+    rng = np.random.default_rng(int(spec["rec_seed"]) + 11)
+    x2 = 0.5 * np.roll(x, 3) + s * rng.standard_normal(len(x))
+    lay = spec["layout"]
+    d = np.ascontiguousarray(np.stack([x, x2]))
+    data: Any = d if lay == "2xN" else (np.ascontiguousarray(d.T) if lay == "Nx2" else d.tolist())
+    rp = {"kind": "ocase", **spec}
+    order = int(spec["order"])
+    for be in ("numpy", spec["nb"]):
+        label = f"[cross {spec['entry']} backend={be} order={order} layout={lay} N={spec['N']}]"
+        try:
+            res, _ = o_call(spec, be, data)
+            iscsd = bool(res.iscsd)
+        except Exception as ex:
+            P.hit("O-analysis-failed")
+            P.notes.append(f"option sweep: {label} failed: {ex!r}"[:200])
+            return
+        P.hit(f"O-cross:{'numpy' if be == 'numpy' else 'numba'}:order={order}")
+        P.hit(f"O-cross-layout:{lay}")
+        P.hit(f"O-entry:{spec['entry']}")
+        if not iscsd:
+            P.notes.append(f"option sweep: {label}: two channels but iscsd is False (belongs to C05)")
+            continue
+        P.hit("cross-asd-is-None" if res.asd is None else "cross-asd-not-None")
+        f = np.sort(np.asarray(res.f, dtype=np.float64).ravel())
+        for b in [None, (float(f[0]), float(f[-1])), (float(f[-1]), float(f[0]))]:
+            P.cases += 1
+            P.hit("get_rms-cross")
+            try:
+                with warnings.catch_warnings():
+                    warnings.simplefilter("ignore")
+                    v = res.get_rms(b)
+            except NotImplementedError:
+                P.nontrivial.add(("get_rms-cross", be, order, lay, spec["entry"]))
+                P.hit("cross-get_rms-NotImplementedError")
+                continue
+            except Exception as ex:
+                P.hit("cross-get_rms-other-exception")
+                P.notes.append(f"option sweep: {label}: get_rms({b}) raised {ex!r} instead of NotImplementedError"[:200])
+                continue
+            add_violation(P, f"{label}: get_rms({b}) = {v!r} on a cross-spectral result (asd is {'None' if res.asd is None else 'set'}): there is no ASD whose "
+                             f"trapezoidal integral this could be; the method must refuse", {"sub": "get_rms-cross-returns-value", "backend": be, "order": order}, dict(rp, band=b))
+
+
+def o_eval(P: C.Part, spec: Dict[str, Any]) -> Optional[float]:
+    w = spec.get("what")
+    if w == "single":
+        return o_single(P, spec)
+    if w == "cross":
+        return o_cross(P, spec)
+    return o_full(P, spec)
+
+
+def gen_o_spec(rng: np.random.Generator, k: int, off: int, order: int, what: str, mode: str) -> Dict[str, Any]:
+    """ONE generator for the options of every analysis-level case: cycles entry points, schedulers, overlap forms, windows, layouts with the case
+    index k and a per-run offset (so that other seeds see other combinations); both backends are run for every spec"""
+    q = k + off
+    c = k // 4 + k + off                                # k % 4 is the position in O_ORDERS: advance the option cycles with the round as well
+    spec: Dict[str, Any] = {"what": what, "mode": mode, "rec_seed": int(rng.integers(0, 2 ** 62)), "order": int(order), "nb": ["numba", "auto"][q % 2],
+                            "fs": float(rng.choice([1.0, 10.0, 1000.0, 1e-3, 1e-6, 3.7e4])), "noise": ["white", "red"][(q // 2) % 2],
+                            "amp": float(rng.choice([3.7, 0.02, 150.0])), "repeat": bool(q % 2 == 0)}
+    if mode == "parseval":
+        spec.update(N=int(rng.choice([2000, 4000])), cfg=int(rng.integers(0, len(PARS_CFGS))), trend=50.0, entry=O_ENTRIES[q % 3], layout="array")
+        return spec
+    N = int(rng.integers(600, 1501))
+    spec.update(N=N, trend=5.0, scheduler=O_SCHEDS[c % len(O_SCHEDS)], olap=O_OLAPS[(c + off // 7) % len(O_OLAPS)], olap_val=float(rng.uniform(0.1, 0.9)),
+                win=O_WINS[(c // 2 + off // 3) % len(O_WINS)], psll=float(rng.choice([60.0, 100.0, 200.0])), Jdes=int(rng.integers(8, 31)),
+                Kdes=int(rng.choice([1, 2, 5, 20])), Lmin=int(max(8, N // 40) + int(rng.integers(0, 2))),
+                sched_par=int(rng.choice([63, 64, 96, 127])), layout=["array", "list"][(c // 3) % 2])
+    if what == "single":
+        spec.update(entry=O_SB_ENTRIES[q % len(O_SB_ENTRIES)], sb_L=int(rng.integers(16, N + 1)) if q % 3 else N, sb_freq=float(rng.uniform(0.01, 0.49)))
+        if spec["olap"] == "high":
+            spec["olap"] = "float"                       # navg of a single bin grows like 1/(1-olap): keep it cheap
+    elif what == "cross":
+        spec.update(entry=O_ENTRIES[q % 3] if q % 4 else O_SB_ENTRIES[q % 4], layout=O_CROSS_LAYOUTS[q % 3], N=int(rng.integers(300, 601)),
+                    sb_L=int(rng.integers(16, 300)), sb_freq=float(rng.uniform(0.01, 0.49)))
+        spec["Lmin"] = max(8, spec["N"] // 30)
+        if spec["olap"] == "high":
+            spec["olap"] = "zero"
+    else:
+        spec.update(entry=O_ENTRIES[q % 3])
+    return spec
+
+
+def option_sweep(ctx, P: C.Part, rng: np.random.Generator, intensive: bool) -> None:
+    t_in = ctx.time_left()
+    deep = bool(ctx.thorough or intensive)
+    rounds = 12 if ctx.thorough else (8 if intensive else 4)
+    budget = 120.0 if ctx.thorough else (45.0 if intensive else 12.0)
+    off = int(rng.integers(0, 1000))
+    devs: Dict[str, List[float]] = {"white": [], "red": []}
+    k = 0
+    cnt: Dict[Tuple[str, str], int] = {}
+    for rd in range(rounds):
+        for what, mode in (("full", "sweep"), ("full", "parseval"), ("single", "sweep"), ("cross", "sweep")):
+            if what == "full" and mode == "parseval" and rd >= max(1, rounds // 2):
+                continue
+            for order in O_ORDERS:
+                if t_in - ctx.time_left() > budget or ctx.time_left() < 25 or len(P.violations) >= MAX_VIOL:
+                    P.notes.append(f"option sweep stopped in round {rd} ({what}/{mode}, time budget)")
+                    return
+                kk_ = cnt.get((what, mode), 0)                # a counter per kind of case: the option cycles advance with it
+                cnt[(what, mode)] = kk_ + 1
+                spec = gen_o_spec(rng, kk_, off, order, what, mode)
+                k += 1
+                dev = o_eval(P, spec)
+                if mode == "parseval" and dev is not None:
+                    devs[spec["noise"]].append(dev)
+                if k == 3:
+                    P.sample({"op": "option-sweep", **{kk: spec[kk] for kk in ("what", "mode", "order", "nb", "entry", "N") if kk in spec}}, cap=12)
+    for kk, v in devs.items():
+        if v:
+            P.notes.append(f"Parseval per (backend, order), {kk} noise: {len(v)} records x 2 backends, deviation in [{100 * min(v):+.2f} %, {100 * max(v):+.2f} %]")
+    P.notes.append(f"option sweep: {k} specs x 2 backends, {t_in - ctx.time_left():.1f}s")
+
+
+# =====================================================================================================================
 #  oracle
 # =====================================================================================================================
 def corpus(P: C.Part) -> None:
@@ -1070,6 +1982,22 @@ def oracle(ctx, intensive: bool = False, hints=()) -> C.Part:
         if v:
             P.notes.append(f"Parseval probe, {k} noise: {len(v)} records, deviation full-band RMS / time-domain RMS - 1 in "
                            f"[{100 * min(v):+.2f} %, {100 * max(v):+.2f} %], threshold {100 * PARSEVAL_THR[k]:.0f} %")
+
+    # -- (6)-(8) sweeps over SIZES and analysis OPTIONS (after the streams above, whose random inputs are therefore unchanged). Each stream has
+    #    its own child generator (one integer drawn from ctx.rng each), so a stream cut short by its time budget does not shift the others.
+    seeds = [int(v) for v in rng.integers(0, 2 ** 62, size=3)]
+    with one_blas_thread() as nblas:
+        P.hit("blas-libraries-limited-to-one-thread", int(nblas))
+        for fn_, sd in zip((option_sweep, rms_sized, detrend_long), seeds):
+            if len(P.violations) >= MAX_VIOL or ctx.time_left() < 40:
+                P.notes.append(f"{fn_.__name__} skipped (time budget / violation cap)")
+                continue
+            try:
+                fn_(ctx, P, np.random.default_rng(sd), intensive)
+            except Exception as ex:       # a failure of the sweep machinery itself must not hide the results above
+                import traceback
+                P.notes.append(f"{fn_.__name__} aborted: {ex!r} :: {traceback.format_exc()[-300:]}"[:480])
+                P.hit("sweep-stream-aborted")
     P.notes.append("worst observed fraction of the allowed tolerance: " + ", ".join(f"{k} {v:.2g}" for k, v in sorted(MARGIN.items())))
     return P
 
@@ -1091,13 +2019,21 @@ def replay(ctx, data) -> C.Part:
             else:
                 g = r["gen"]
                 x = make_series(int(g["case_seed"]), int(g["n"]), g["series"])
-            detrend_eval(P, x, int(r["order"]), {kk: r[kk] for kk in ("x", "gen") if kk in r}, as_list=bool(r.get("as_list", False)))
+            detrend_eval(P, x, int(r["order"]), {kk: r[kk] for kk in ("x", "gen") if kk in r}, as_list=bool(r.get("as_list", False)),
+                         light=bool(r.get("light", False)))
         elif k == "poly":
             poly_eval(P, int(r["n"]), int(r["order"]), r["coeffs"])
         elif k == "df":
-            df_eval(P, {kk: r[kk] for kk in ("case_seed", "n", "order", "columns", "inplace", "suffix")})
+            df_eval(P, {kk: r[kk] for kk in ("case_seed", "n", "order", "columns", "inplace", "suffix", "light") if kk in r})
         elif k == "result":
             result_eval(P, {kk: r[kk] for kk in ("rec_seed", "N", "fs", "noise", "amp", "cfg")})
+        elif k == "rmsgen":
+            org = {kk: r[kk] for kk in ("kind", "case_seed", "n", "grid", "asd")}
+            f, y = make_grid(org)
+            rms_eval(P, f, y, r["check"], r["args"], int(r.get("variant", 0)), tag="replay", origin=org)
+        elif k == "ocase":
+            with one_blas_thread():
+                o_eval(P, {kk: vv for kk, vv in r.items() if kk not in ("check", "args", "variant", "band", "error")})
         else:
             P.notes.append(f"unknown replay kind {k!r}")
     return P
